@@ -45,6 +45,16 @@ def run(rep, tier):
     qs.sort(key=lambda q: 0 if "linear" in q.name else 1)
     l2.run_symbolic(rep, "C03", qs, bdir, inc, gens=gens, lin=lambda q: "C03.L2.linear_in_vector.d%s" % l2.defs_of(q)["D"],
                     witness=witness, replay_prog="algebra")
+    # Layer 1 (shared with C09): the statement `T = op(A,B)` / `T += ...` / construction is the value contract above only if the kernel writes every slot of the
+    # target exactly once through the statement's wrapper and is never evaluated in place on an aliased operand: kernel write-once jobs and the assignProxy /
+    # proxy-constructor policy jobs of these operation families
+    from props import suvfam
+    import suvfam_scen
+    fam = suvfam.Fam(rep, "C03", sub=".l1")
+    suvfam.std_texts(rep)
+    fam.add_kernels(fams=["Evolution", "FastEvolution"])
+    fam.add_proxy(fams=["Evolution", "FastEvolution"])
+    fam.run(scenario=suvfam_scen.scenario)
 
 
 def replay(path):
